@@ -13,7 +13,11 @@ Kernels (DESIGN.md section 4, C15):
   K3  populating: the REAL `dir` instruction (setup phase) with a FILE-LIST chosen [selector] from a
       catalogue of FILE-SPECs, applied to real directories; oracle: a fold of the documented
       semantics over an in-memory tree; nothing outside the populated directory changes.
-  K4  FILE-NAME validation [selector]: every name of <= n characters over {a . / :}.
+  K4  FILE-NAME validation [selector]: every name of <= n characters over {a . / :}, through the same instruction.
+  K6  file names: stem / suffixes / suffix of EVERY name (symbolic string) as documented; the matchers name, stem,
+      suffixes, suffix, path with glob and regex patterns [selector] on a real fixture through `-selection`.
+  K5  `file_creation.create_file` [selector] (used for transformed program output, not by FILE-LISTs): None iff the
+      file was created, intermediate directories made, nothing touched on failure, file removed if the writer raises.
 """
 import os
 from typing import List, Tuple
@@ -206,7 +210,7 @@ def _pre_k1(lo, hi, sa, sb, pa, pb) -> bool:
     return lo >= NEG_BOUND and hi >= NEG_BOUND and _unused_pinned(ob.case(), lo, hi, sa, sb, pa, pb)
 
 
-def k1_walk(lo: int, hi: int, sa: B8, sb: B4, pa: B4, pb: B4) -> bool:
+def k1_walk(lo: int, hi: int, sa: B8, sb: B4, pa: B8, pb: B4) -> bool:
     """
     pre: _pre_k1(lo, hi, sa, sb, pa, pb)
     post: _
@@ -419,6 +423,7 @@ SRC_FIXTURES = {
     'src1': D(a=F('S'), sub=D(x=F('X'))),
     'src2': D(a=F('A2'), lnk=L('a')),
     'src3': D(a=F('A3'), sub=D(l=L('../a')), dl=L('nowhere')),
+    'src4': D(sub=D(x=F('X4')), ls=L('sub'), lf=L('sub/x')),
     'afile': F('not a dir'),
 }
 
@@ -460,7 +465,7 @@ def _entry_catalogue(tier):
         ('file', 'l/n', '=', 'n'),
         ('file', 'e', '+=', 'E'),
     ]
-    if tier == 'thorough':
+    if True:
         c += [
             ('dir', 'd/../e', None, None),
             ('file', 'a/b', '=', 'q'),
@@ -472,6 +477,8 @@ def _entry_catalogue(tier):
             ('dir', 'c', '=', ('copy', ['case', 'afile'])),
             ('dir', 'a', '+=', []),
             ('dir', '.', None, None),
+            ('dir', 'l', '+=', [('file', 'm', '=', 'M')]),
+            ('dir', 'c', '=', ('copy', ['case', 'src4'])),
         ]
     return c
 
@@ -641,6 +648,210 @@ def _real_name_invalid(name: str) -> bool:
     return file_list._IsValidPosixPath(name).validate_pre_sds_if_applicable(None) is not None
 
 
+# --------------------------------------------------------------------------- K5: file_creation.create_file
+
+K5_TARGETS = ['a', 'n', 'd/a', 'd/n', 'd/e/f', 'l/n', 'a/b', 'e', 'x/y/z']
+
+
+def _pre_k5(t, fails) -> bool:
+    return 0 <= t < len(K5_TARGETS)
+
+
+def k5_create_file(t: int, fails: bool) -> bool:
+    """
+    pre: _pre_k5(t, fails)
+    post: _
+    """
+    case = ob.case()
+    ti = ob.concrete_int(t, 0, len(K5_TARGETS) - 1)
+    op_fails = ob.concrete_bool(fails)
+    with lib.untraced():
+        ok = _run_create_file(case['init'], K5_TARGETS[ti], op_fails, bool(case.get('oracle_bug')))
+    return ob.post(ok)
+
+
+def _run_create_file(init_name: str, target: str, op_fails: bool, oracle_bug: bool) -> bool:
+    import pathlib
+    import shutil
+    from exactly_lib.impls import file_creation
+    w = lib.world()
+    par = os.path.join(w.act_dir, 'par5')
+    if os.path.exists(par):
+        shutil.rmtree(par)
+    os.mkdir(par)
+    children = {'sib': lib.DD(SIB), 'dst': lib.DD(INIT_TREES[init_name])}
+    lib.materialize(children, par)
+    fs = lib.MemFs({'par5': lib.DD(children)})
+
+    class OpError(Exception):
+        pass
+
+    def op(f):
+        f.write('X')
+        if op_fails:
+            raise OpError()
+
+    raised = False
+    try:
+        msg = file_creation.create_file(pathlib.Path(par) / 'dst' / target, op)
+    except OpError:
+        raised = True
+        msg = None
+    parts = ['par5', 'dst'] + target.split('/')
+    try:
+        fs.create_file(parts, 'X')
+        ref_ok = True
+    except lib.RefHardError:
+        ref_ok = False
+    after = lib.snapshot(par)
+    if not ref_ok:
+        return msg is not None and not raised and after == children
+    if op_fails and not oracle_bug:  # (seeded oracle error: the oracle keeps the file of a failed writer)
+        # the exception propagates and the file is removed again (the intermediate directories stay)
+        fs2 = lib.MemFs({'par5': lib.DD(children)})
+        fs2.mkdir_p(parts[:-1])
+        return raised and after == fs2.root[1]['par5'][1]
+    return msg is None and not raised and after == fs.root[1]['par5'][1]
+
+
+# --------------------------------------------------------------------------- K6: name parts, name / path patterns
+
+def ref_name_parts(name: str):
+    """Documented division of a file name (help of `stem`, `suffixes`, `suffix`; table of examples:
+    a.tar.gz -> a | .tar.gz | .gz ;  f. -> f | . | . ;  .x.y -> '' | .x.y | .y ;  f -> f | '' | ''):
+    stem = up to the first '.', suffixes = from the first '.', suffix = from the last '.'."""
+    first = -1
+    last = -1
+    i = 0
+    for c in name:
+        if c == '.':
+            if first == -1:
+                first = i
+            last = i
+        i += 1
+    if first == -1:
+        return name, '', ''
+    return name[:first], name[first:], name[last:]
+
+
+def _pre_k6(s) -> bool:
+    if len(s) > ob.case()['maxlen']:
+        return False
+    for c in s:
+        if c not in 'ab.':
+            return False
+    return True
+
+
+def k6_parts(s: str) -> bool:
+    """
+    pre: _pre_k6(s)
+    post: _
+    """
+    from exactly_lib.impls.types.file_matcher.impl.names import properties
+    stem, suffixes, suffix = ref_name_parts(s)
+    r_stem = properties.get_stem_from_name(s)
+    r_suffixes = properties.get_suffixes_from_name(s)
+    r_suffix = properties.get_suffix_from_name(s)
+    if ob.case().get('oracle_bug'):
+        suffix = suffixes  # seeded oracle error: suffix = everything from the FIRST '.'
+    return ob.post(r_stem == stem and r_suffixes == suffixes and r_suffix == suffix
+                   and properties.get_name_from_name(s) == s)
+
+
+FIXTURES['names'] = {'a.tar.gz': F(), 'f.txt': F(), 'f': F(), 'f.': F(), '.x.y': F(), 'sub.d': D(**{'a.tar.gz': F(), 'f': D()})}
+
+# (matcher, pattern kind, pattern)
+NAME_MATCHERS = [
+    ('name', 'glob', 'f'), ('name', 'glob', 'f*'), ('name', 'glob', '*.gz'), ('name', 'glob', '?.*'), ('name', 'glob', '*'),
+    ('name', 'regex', '^f'), ('name', 'regex', 'tar'),
+    ('stem', 'glob', 'f'), ('stem', 'glob', 'a'), ('stem', 'glob', ''), ('stem', 'glob', '*'), ('stem', 'regex', '^$'),
+    ('stem', 'glob', 'sub'),
+    ('suffixes', 'glob', '.tar.gz'), ('suffixes', 'glob', '.gz'), ('suffixes', 'glob', ''), ('suffixes', 'glob', '.'),
+    ('suffixes', 'glob', '.*'), ('suffixes', 'regex', '^\\.x'),
+    ('suffix', 'glob', '.gz'), ('suffix', 'glob', '.tar.gz'), ('suffix', 'glob', ''), ('suffix', 'glob', '.'),
+    ('suffix', 'glob', '.y'), ('suffix', 'glob', '.?'), ('suffix', 'regex', 'z$'),
+    ('path', 'glob', 'f'), ('path', 'glob', '*/names/f'), ('path', 'glob', 'sub.d/*'), ('path', 'glob', '*.d/f'),
+    ('path', 'glob', 'names/*'), ('path', 'regex', 'sub\\.d/'), ('path', 'regex', 'names/f$'),
+]
+
+
+def ref_glob(pattern: str, s: str) -> bool:
+    """shell pattern restricted to literals, `?` (one character) and `*` (any characters); whole-string match"""
+    if pattern == '':
+        return s == ''
+    c = pattern[0]
+    if c == '*':
+        return any(ref_glob(pattern[1:], s[i:]) for i in range(len(s) + 1))
+    if s == '':
+        return False
+    return (c == '?' or c == s[0]) and ref_glob(pattern[1:], s[1:])
+
+
+def ref_path_glob(pattern: str, abs_path: str) -> bool:
+    """relative pattern: matched against the last components of the path, component by component"""
+    pp = pattern.split('/')
+    sp = [x for x in abs_path.split('/') if x]
+    if len(pp) > len(sp):
+        return False
+    return all(ref_glob(a, b) for a, b in zip(pp, sp[len(sp) - len(pp):]))
+
+
+def _ref_name_match(m, rel: str, root: str) -> bool:
+    import re
+    kind, pk, pattern = m
+    name = rel.split('/')[-1]
+    stem, suffixes, suffix = ref_name_parts(name)
+    if kind == 'path':
+        subject = root + '/' + rel
+        return bool(re.search(pattern, subject)) if pk == 'regex' else ref_path_glob(pattern, subject)
+    subject = dict(name=name, stem=stem, suffixes=suffixes, suffix=suffix)[kind]
+    return bool(re.search(pattern, subject)) if pk == 'regex' else ref_glob(pattern, subject)
+
+
+def _pre_k6n(mi, neg) -> bool:
+    return 0 <= mi < len(NAME_MATCHERS)
+
+
+def k6_names(mi: int, neg: bool) -> bool:
+    """
+    pre: _pre_k6n(mi, neg)
+    post: _
+    """
+    case = ob.case()
+    i = ob.concrete_int(mi, 0, len(NAME_MATCHERS) - 1)
+    negated = ob.concrete_bool(neg)
+    with lib.untraced():
+        ok = _run_name_matcher(NAME_MATCHERS[i], negated, case['rec'], bool(case.get('oracle_bug')))
+    return ob.post(ok)
+
+
+def _run_name_matcher(m, negated: bool, rec: bool, oracle_bug: bool) -> bool:
+    from vsym import xly
+    from exactly_lib.symbol.value_type import ValueType
+    w = lib.world()
+    root = fx_real('names')
+    fs, entries, dirs = fx_info('names')
+    kind, pk, pattern = m
+    pat = "''" if pattern == '' else ("'%s'" % pattern)
+    mtext = '%s %s%s' % (kind, '~ ' if pk == 'regex' else '', pat)
+    if negated:
+        mtext = '! ' + mtext
+    listings = []
+    symbols = xly.symbol_table({
+        'REC': xly.matcher_symbol(xly.StubMatcher('REC', _Recorder(listings), []), ValueType.FILES_MATCHER)})
+    text = '-rel-act names : dir-contents %s-selection %s REC' % ('-recursive ' if rec else '', mtext)
+    instr = lib.parse_instruction('exists', text)
+    if not instr.validate_pre_sds(w.env_pre(symbols)).is_success:
+        return False
+    r = instr.main(w.env_post(symbols), None, lib.os_services())
+    universe = entries if rec else [e for e in entries if '/' not in e]
+    if oracle_bug:
+        m = ('suffixes' if kind == 'suffix' else kind, pk, pattern)  # seeded oracle error: suffix taken for suffixes
+    expected = sorted(e for e in universe if _ref_name_match(m, e, root) != negated)
+    return r.status.name == 'PASS' and listings == [expected]
+
+
 # --------------------------------------------------------------------------- obligations
 
 REAL_WALK = (
@@ -700,33 +911,73 @@ def _walk_bound(case) -> str:
     return b
 
 
+CAPACITY = {'sa': 8, 'sb': 4, 'pa': 8, 'pb': 4}
+
+
+def _check_capacity(case, capacity=CAPACITY):
+    """harness sanity: the fixture's files / directories fit the fixed-size verdict tuples"""
+    fs, entries, dirs = fx_info(case['fx'])
+    for m in tuple(case.get('mods', ())) + tuple(case.get('uses', ())):
+        need = len(entries) if m in ('sa', 'sb') else len(dirs)
+        if need > capacity[m]:
+            raise ValueError('harness error: fixture %s needs %d verdicts for %s' % (case['fx'], need, m))
+
+
 def _k1_cases(tier):
+    thorough = tier == 'thorough'
     cases = []
-    fxs = ['empty', 'flat', 'nest', 'links', 'deep', 'two'] + (['mix'] if tier == 'thorough' else [])
     # depth limits only
-    for fx in fxs:
+    for fx in ['empty', 'flat', 'nest', 'links', 'deep', 'two'] + (['mix'] if thorough else []):
         cases.append(dict(fx=fx, rec=False))
-        for has_min in (False, True):
-            for has_max in (False, True):
-                cases.append(dict(fx=fx, has_min=has_min, has_max=has_max))
+        cases.append(dict(fx=fx, has_min=True, has_max=True))
+        if fx in ('empty', 'flat') and not thorough:
+            continue
+        cases.append(dict(fx=fx))
+        cases.append(dict(fx=fx, has_min=True))
+        cases.append(dict(fx=fx, has_max=True))
     # selection / prune, alone and combined (both orders: "pruning is done before selection regardless of order")
-    for fx in ('nest', 'links', 'two'):
-        for mods in (('sa',), ('pa',), ('sa', 'pa'), ('pa', 'sa')):
-            cases.append(dict(fx=fx, mods=mods))
+    for mods in (('sa',), ('pa',), ('sa', 'pa'), ('pa', 'sa'), ('pa', 'pb')):
+        cases.append(dict(fx='nest', mods=mods))
+    for mods in (('pa',), ('pa', 'pb')):
+        cases.append(dict(fx='two', mods=mods))
+    cases.append(dict(fx='links', mods=('pa',)))
     for fx in ('nest', 'two'):
-        cases.append(dict(fx=fx, mods=('pa', 'pb')))
         cases.append(dict(fx=fx, mods=('pa',), has_min=True, has_max=True))
     cases.append(dict(fx='flat', mods=('sa', 'sb')))
     cases.append(dict(fx='nest', mods=('sa',), rec=False))
     cases.append(dict(fx='nest', mods=('pa',), rec=False))
+    if thorough:
+        for fx in ('links', 'two'):
+            for mods in (('sa',), ('sa', 'pa'), ('pa', 'sa')):
+                cases.append(dict(fx=fx, mods=mods))
+        cases.append(dict(fx='links', mods=('pa', 'pb')))
+        cases.append(dict(fx='links', mods=('pa',), has_min=True, has_max=True))
+        cases.append(dict(fx='mix', mods=('pa',)))
+        cases.append(dict(fx='mix', mods=('pa',), has_max=True))
+        cases.append(dict(fx='nest', mods=('sa', 'pa'), has_min=True, has_max=True))
+        cases.append(dict(fx='nest', mods=('pa', 'sa', 'pb'), has_max=True))
+        cases.append(dict(fx='deep', mods=('pa', 'pb'), has_min=True, has_max=True))
+        cases.append(dict(fx='deep', mods=('sa', 'pa')))
+        cases.append(dict(fx='flat', mods=('sa', 'sb'), rec=False))
     return cases
+
+
+def _walk_timeout(case) -> float:
+    fs, entries, dirs = fx_info(case['fx'])
+    mods = case.get('mods', ())
+    bits = sum(len(entries) for m in mods if m in ('sa', 'sb')) + sum(len(dirs) for m in mods if m in ('pa', 'pb'))
+    t = 60.0 * (2 ** min(bits, 7)) / 8
+    if case.get('has_min') or case.get('has_max'):
+        t *= 3
+    return max(120.0, min(t, 3000.0))
 
 
 def obligations(tier: str) -> List[Ob]:
     obs = []
     for case in _k1_cases(tier):
+        _check_capacity(case)
         obs.append(Ob(name='K1:' + _walk_name(case), fn='k1_walk', case=case, kernel='K1',
-                      bound=_walk_bound(case), timeout=300, real=REAL_WALK, stubs=(STUB_INT, STUB_FM),
+                      bound=_walk_bound(case), timeout=_walk_timeout(case), real=REAL_WALK, stubs=(STUB_INT, STUB_FM),
                       outside=OUT_WALK, entry='`exists -rel-act FX : dir-contents ... REC` (assert phase instruction)'))
     obs.append(Ob(name='K1:seeded-oracle-error', fn='k1_walk',
                   case=dict(fx='nest', has_min=False, has_max=True, oracle_bug=True), kernel='K1',
@@ -735,6 +986,8 @@ def obligations(tier: str) -> List[Ob]:
     obs += _k2_obligations(tier)
     obs += _k3_obligations(tier)
     obs += _k4_obligations(tier)
+    obs += _k5_obligations(tier)
+    obs += _k6_obligations(tier)
     return obs
 
 
@@ -817,7 +1070,7 @@ def _k2_cases(tier):
         cases.append(('matches/nest-minmax', dict(fx='nest', has_min=True, has_max=True, m=('matches', False), uses=('sb',))))
         cases.append(('matches-full/nest-minmax', dict(fx='nest', has_min=True, has_max=True, m=('matches', True), uses=('sb',))))
         cases.append(('every/links-rec', dict(fx='links', m=('every', 'QB'), uses=('sb',))))
-        cases.append(('any/two-pa', dict(fx='two', mods=('pa',), m=('any', 'QB'), uses=('sb',))))
+        cases.append(('any/two-sa', dict(fx='two', mods=('sa',), m=('any', 'QB'), uses=('sb',))))
         for t in ('file', 'dir', 'symlink'):
             cases.append(('every-type-%s/links-rec-sa' % t, dict(fx='links', mods=('sa',), m=('every', 'type ' + t))))
         cases.append(('subdirs-num/mix', dict(fx='mix', m=('subdirs-num',))))
@@ -838,6 +1091,7 @@ K2_SPECIAL = [
 def _k2_obligations(tier):
     obs = []
     for name, case in _k2_cases(tier):
+        _check_capacity(case, {'sa': 8, 'sb': 8, 'pa': 0, 'pb': 0})
         big = case['m'][0] == 'matches' or case.get('mods')
         obs.append(Ob(name='K2:' + name, fn='k2_match', case=case, kernel='K2',
                       bound='fixture %r; `%sexists P : %s %s`; every integer operand K_i (depth limits >= 0), every verdict of '
@@ -860,14 +1114,28 @@ def _k2_obligations(tier):
 
 def _k3_obligations(tier):
     obs = []
-    ncat = len(_entry_catalogue(tier))
+    cat = _entry_catalogue('thorough')
+    ncat = len(cat)
+    entry = '`dir -rel-act par/dst (=|+=) { FILE-SPEC... }` (setup phase instruction): validate_pre_sds, main'
     for init in INIT_TREES:
-        obs.append(Ob(name='K3:%s/k2' % init, fn='k3_populate', case=dict(tier=tier, init=init, k=2), kernel='K3',
-                      bound='initial tree %r; every FILE-LIST of 2 FILE-SPECs from the catalogue of %d (%d lists)' % (
-                          init, ncat, ncat ** 2),
-                      timeout=600, real=REAL_POP, stubs=(STUB_UNTRACED,), outside=OUT_POP, selector=True,
-                      entry='`dir -rel-act par/dst (=|+=) { FILE-SPEC... }` (setup phase instruction): validate_pre_sds, main'))
-    obs.append(Ob(name='K3:seeded-oracle-error', fn='k3_populate', case=dict(tier='quick', init='empty', k=2, oracle_bug=True),
+        if tier == 'quick':
+            obs.append(Ob(name='K3:%s/k2' % init, fn='k3_populate', case=dict(tier='thorough', init=init, k=2), kernel='K3',
+                          bound='initial tree %r; every FILE-LIST of 2 FILE-SPECs from the catalogue of %d (%d lists)' % (
+                              init, ncat, ncat ** 2),
+                          timeout=240, real=REAL_POP, stubs=(STUB_UNTRACED,), outside=OUT_POP, selector=True, entry=entry))
+        else:
+            for first in range(ncat):
+                obs.append(Ob(name='K3:%s/k3/e%02d' % (init, first), fn='k3_populate',
+                              case=dict(tier='thorough', init=init, k=2, first=first), kernel='K3',
+                              bound='initial tree %r; every FILE-LIST of 3 FILE-SPECs from the catalogue of %d whose first '
+                                    'FILE-SPEC is no. %d (%d lists)' % (init, ncat, first, ncat ** 2),
+                              timeout=240, real=REAL_POP, stubs=(STUB_UNTRACED,), outside=OUT_POP, selector=True, entry=entry))
+    if tier == 'thorough':
+        for init in INIT_TREES:
+            obs.append(Ob(name='K3:%s/k1' % init, fn='k3_populate', case=dict(tier='thorough', init=init, k=1), kernel='K3',
+                          bound='initial tree %r; every FILE-LIST of 1 FILE-SPEC from the catalogue of %d' % (init, ncat),
+                          timeout=120, real=REAL_POP, stubs=(STUB_UNTRACED,), outside=OUT_POP, selector=True, entry=entry))
+    obs.append(Ob(name='K3:seeded-oracle-error', fn='k3_populate', case=dict(tier='thorough', init='empty', k=2, oracle_bug=True),
                   kernel='K3', bound='seeded oracle error: FILE-SPECs applied in reverse order', timeout=300,
                   expect=ob.REFUTE, real=REAL_POP, selector=True))
     return obs
@@ -890,6 +1158,163 @@ def _k4_obligations(tier):
     obs.append(Ob(name='K4:seeded-oracle-error', fn='k4_names', case=dict(kind='file', mod=None, init='empty', n=2, oracle_bug=True),
                   kernel='K4', bound='seeded oracle error: the oracle accepts `..`', timeout=120,
                   expect=ob.REFUTE, real=REAL_POP, selector=True))
+    return obs
+
+
+def selftest(tier) -> int:
+    """Concrete comparison of the reference model (MemFs, ref_listing, mkdir_p, name rules) with the real file
+    system / os.walk / os.makedirs / pathlib.  (exactly_lib is not involved: that is what the obligations are for.)"""
+    import itertools
+    import shutil
+    from pathlib import PurePosixPath
+    from vsym import scratch
+    n = 0
+    base = scratch.new_dir('c15st')
+    try:
+        trees = dict(FIXTURES)
+        for k, v in INIT_TREES.items():
+            if v is not None:
+                trees['init-' + k] = v
+        for name, children in trees.items():
+            root = os.path.join(base, name)
+            os.mkdir(root)
+            lib.materialize(children, root)
+            if lib.snapshot(root) != children:
+                raise AssertionError('materialize/snapshot round trip differs for %s' % name)
+            fs = lib.MemFs({name: lib.DD(children)})
+            # every path of <= 3 components over the names occurring in the tree (+ one that does not occur)
+            names = set(['zz'])
+
+            def collect(ch):
+                for k2, v2 in ch.items():
+                    names.add(k2)
+                    if v2[0] == 'd':
+                        collect(v2[1])
+
+            collect(children)
+            for depth in (1, 2, 3):
+                for parts in itertools.product(sorted(names), repeat=depth):
+                    p = os.path.join(root, *parts)
+                    got = (fs.is_dir([name] + list(parts)), fs.is_file([name] + list(parts)),
+                           fs.exists_nofollow([name] + list(parts)))
+                    exp = (os.path.isdir(p), os.path.isfile(p), os.path.lexists(p))
+                    if got != exp:
+                        raise AssertionError('MemFs differs from the file system at %s/%s: %r vs %r' % (
+                            name, '/'.join(parts), got, exp))
+                    n += 1
+            # the walk
+            real = []
+            for dirpath, dirnames, filenames in os.walk(root, followlinks=True):
+                for x in dirnames + filenames:
+                    real.append(os.path.relpath(os.path.join(dirpath, x), root))
+            for lo in (None, 0, 1, 2, 3):
+                for hi in (None, 0, 1, 2, 3):
+                    exp = sorted(r for r in real if (lo is None or r.count('/') >= lo) and (hi is None or r.count('/') <= hi))
+                    got = lib.ref_listing(fs, [name], True, lo, hi, _false, _true)
+                    if got != exp:
+                        raise AssertionError('ref_listing differs from os.walk for %s [%r,%r]: %r vs %r' % (name, lo, hi, got, exp))
+                    n += 1
+            if lib.ref_listing(fs, [name], False, None, None, _false, _true) != sorted(os.listdir(root)):
+                raise AssertionError('non-recursive listing differs for %s' % name)
+            # mkdir_p against os.makedirs
+            for depth in (1, 2, 3):
+                for parts in itertools.product(sorted(names), repeat=depth):
+                    work = os.path.join(base, 'work')
+                    if os.path.exists(work):
+                        shutil.rmtree(work)
+                    os.mkdir(work)
+                    lib.materialize(children, work)
+                    fs2 = lib.MemFs({'work': lib.DD(children)})
+                    try:
+                        os.makedirs(os.path.join(work, *parts), exist_ok=True)
+                        real_ok = True
+                    except OSError:
+                        real_ok = False
+                    try:
+                        fs2.mkdir_p(['work'] + list(parts))
+                        ref_ok = True
+                    except lib.RefHardError:
+                        ref_ok = False
+                    if real_ok != ref_ok or (real_ok and lib.snapshot(work) != fs2.root[1]['work'][1]):
+                        raise AssertionError('mkdir_p differs from os.makedirs for %s + %s' % (name, '/'.join(parts)))
+                    n += 1
+        # FILE-NAME rules against pathlib
+        for ln in range(0, 6):
+            for cs in itertools.product(NAME_ALPHABET, repeat=ln):
+                nm = ''.join(cs)
+                pp = PurePosixPath(nm)
+                exp_invalid = nm == '' or ':' in nm or ';' in nm or pp.is_absolute() or '..' in pp.parts
+                if lib.name_is_invalid(nm) != exp_invalid:
+                    raise AssertionError('name_is_invalid(%r)' % nm)
+                if not exp_invalid and tuple(lib.name_parts(nm)) != pp.parts:
+                    raise AssertionError('name_parts(%r)' % nm)
+                n += 1
+    finally:
+        scratch.remove(base)
+    return n
+
+
+REAL_K5 = ('exactly_lib.impls.file_creation.create_file', 'exactly_lib.impls.file_creation._create_file',
+           'exactly_lib.util.file_utils.ensure_file_existence.ensure_directory_exists_as_a_directory')
+
+
+def _k5_obligations(tier):
+    obs = []
+    for init in INIT_TREES:
+        if INIT_TREES[init] is None:
+            continue
+        obs.append(Ob(name='K5:' + init, fn='k5_create_file', case=dict(init=init), kernel='K5',
+                      bound='file_creation.create_file(<dst>/T, op) on initial tree %r: every T in %r, op succeeds / raises' % (
+                          init, K5_TARGETS),
+                      timeout=120, real=REAL_K5, stubs=(STUB_UNTRACED,), outside=OUT_POP, selector=True,
+                      entry='exactly_lib.impls.file_creation.create_file'))
+    obs.append(Ob(name='K5:seeded-oracle-error', fn='k5_create_file', case=dict(init='dir-d', oracle_bug=True), kernel='K5',
+                  bound='seeded oracle error: the file of a failed writer is kept', timeout=120, expect=ob.REFUTE, real=REAL_K5, selector=True))
+    return obs
+
+
+REAL_K6 = (
+    'exactly_lib.impls.types.file_matcher.impl.names.properties.get_stem_from_name',
+    'exactly_lib.impls.types.file_matcher.impl.names.properties.get_suffixes_from_name',
+    'exactly_lib.impls.types.file_matcher.impl.names.properties.get_suffix_from_name',
+    'exactly_lib.impls.types.file_matcher.impl.names.properties.get_name_from_name',
+)
+REAL_K6N = REAL_K6 + (
+    'exactly_lib.impls.types.file_matcher.impl.names.properties.NamePartAsStrPropertyGetter.get_from',
+    'exactly_lib.impls.types.file_matcher.impl.names.properties.WholePathAsPathPropertyGetter.get_from',
+    'exactly_lib.impls.types.file_matcher.impl.names.properties.WholePathAsStrPropertyGetter.get_from',
+    'exactly_lib.impls.types.file_matcher.impl.names.parse.parser_for_name_part',
+    'exactly_lib.impls.types.file_matcher.impl.names.parse.parser',
+    'exactly_lib.impls.types.file_matcher.impl.names.parsers',
+    'exactly_lib.impls.types.file_matcher.impl.names.sdv.glob_pattern_sdv__str',
+    'exactly_lib.impls.types.file_matcher.impl.names.sdv.glob_pattern_sdv',
+    'exactly_lib.impls.types.file_matcher.impl.names.sdv.reg_ex_sdv',
+    'exactly_lib.impls.types.matcher.impls.matches_glob_pattern._match_str',
+    'exactly_lib.impls.types.matcher.impls.matches_glob_pattern._match_path',
+)
+
+
+def _k6_obligations(tier):
+    maxlen = 5 if tier == 'quick' else 7
+    obs = [Ob(name='K6:parts', fn='k6_parts', case=dict(maxlen=maxlen), kernel='K6',
+              bound='every file name of <= %d characters over {a b .}: stem / suffixes / suffix / name as documented' % maxlen,
+              timeout=600 if tier == 'quick' else 2400, real=REAL_K6,
+              outside=('names over other alphabets (the functions only distinguish `.` from other characters)',),
+              entry='names.properties.get_*_from_name (the property getters of the matchers name, stem, suffixes, suffix)'),
+           Ob(name='K6:parts/seeded-oracle-error', fn='k6_parts', case=dict(maxlen=4, oracle_bug=True), kernel='K6',
+              bound='seeded oracle error: suffix taken from the first `.`', timeout=120, expect=ob.REFUTE, real=REAL_K6)]
+    for rec in (False, True):
+        obs.append(Ob(name='K6:names/%s' % ('rec' if rec else 'nonrec'), fn='k6_names', case=dict(rec=rec), kernel='K6',
+                      bound='fixture `names` (the file names of the help text\'s table + a sub directory); '
+                            '`dir-contents %s-selection [!] M REC` for every M in a catalogue of %d name / stem / suffixes / '
+                            'suffix / path matchers (glob and `~` regex)' % ('-recursive ' if rec else '', len(NAME_MATCHERS)),
+                      timeout=120, real=REAL_K6N, stubs=(STUB_UNTRACED, STUB_FM),
+                      outside=('glob patterns beyond literals, `?`, `*`; the semantics of `re` and `fnmatch` themselves',
+                               'file names other than those of the fixture'),
+                      selector=True, entry='`exists -rel-act names : dir-contents ... -selection M REC`'))
+    obs.append(Ob(name='K6:names/seeded-oracle-error', fn='k6_names', case=dict(rec=True, oracle_bug=True), kernel='K6',
+                  bound='seeded oracle error: `suffix` taken for `suffixes`', timeout=120, expect=ob.REFUTE, real=REAL_K6N,
+                  selector=True))
     return obs
 
 
